@@ -320,6 +320,10 @@ impl QueryTask {
                 return;
             }
             let full_result = owned_results.into_iter().next().unwrap().1;
+            if let Err(error) = full_result.validate() {
+                self.fail_with_no_lock(error);
+                return;
+            }
             let final_result = if let Some(final_pass) = &self.final_pass {
                 let (data_sources, _unsafe_referenced_buffers) = full_result.into_columns();
                 let cols = unsafe {
